@@ -183,6 +183,8 @@ func solveAll(obs []*Obligation, dir string, timeoutS int, keep bool) {
 				}
 				// the two smallest stages of goal-directed trigger matching, briefly
 				dstages := []*Query(nil)
+				var slowStage *Query
+				slowName := ""
 				if !done && os.Getenv("GOVC_NODINST") == "" {
 					dstages = q.DirectedStages(dinstRounds())
 					for si, dq := range dstages {
@@ -199,6 +201,9 @@ func solveAll(obs []*Obligation, dir string, timeoutS int, keep bool) {
 							r.Solver += "+" + sfx[1:]
 							o.Res = r
 							done = true
+						} else if r.Status != "sat" && slowStage == nil {
+							// undecided, not refuted: worth a patient second attempt at the end
+							slowStage, slowName = dq, sfx
 						}
 						if !keep {
 							os.Remove(f)
@@ -328,6 +333,19 @@ func solveAll(obs []*Obligation, dir string, timeoutS int, keep bool) {
 								os.Remove(fa)
 							}
 						}
+					}
+				}
+				if !done && slowStage != nil {
+					// a small stage that was neither proved nor refuted in its short slot gets the full time once
+					f := writeQuery(dir, o.Name+slowName+"_long", slowStage.Script(nil))
+					r := RunPortfolio(f, timeoutS, "")
+					if r.Status == "unsat" {
+						r.Solver += "+" + slowName[1:] + "-long"
+						o.Res = r
+						done = true
+					}
+					if !keep {
+						os.Remove(f)
 					}
 				}
 				if !done {
